@@ -966,7 +966,7 @@ func UnmarshalEnumValues(flags bool, value *yaml.Node) (*EnumValues, error) {
 	switch value.Tag {
 	case "!!seq":
 		for i, v := range value.Content {
-			if v.Tag != "!!str" {
+			if v.Tag != "!!str" && v.Tag != "!!bool" {
 				goto err
 			}
 			var integerValue big.Int
